@@ -140,9 +140,42 @@ def np_position(name):
     return g
 
 
+_UNINIT = [0]
+
+
+def np_empty(ip, args, kwargs, node):
+    _UNINIT[0] += 1
+    name = 'uninit%d' % _UNINIT[0]
+    ip.sym_kind[name] = 'tensor'
+    a = ip.fresh_array(N.sym(name))
+    if 'like' in (node.func.attr if isinstance(getattr(node, 'func', None), ast.Attribute) else '') and args and 'dtype' not in kwargs:
+        a.dtype_like = args[0]
+    return a
+
+
+def np_full(like):
+    def g(ip, args, kwargs, node):
+        if len(args) < 2:
+            raise Unsupported('np.full arity', node)
+        t, _ = ip.term_of(args[1], node)
+        a = ip.fresh_array(t)
+        if like and 'dtype' not in kwargs and len(args) < 3:
+            a.dtype_like = args[0]      # the new array has the dtype of its template
+        return a
+    return g
+
+
+def np_broadcast(ip, args, kwargs, node):
+    return Obj('broadcast', {'shape': Obj('shape', {'arr': args[0], 'with': list(args[1:])})})
+
+
 def np_fill(value):
     def g(ip, args, kwargs, node):
-        return ip.fresh_array(N.NF.const(value))
+        a = ip.fresh_array(N.NF.const(value))
+        fn_ = getattr(node, 'func', None)
+        if isinstance(fn_, ast.Attribute) and fn_.attr.endswith('_like') and args and 'dtype' not in kwargs:
+            a.dtype_like = args[0]      # zeros_like(x) / ones_like(x): dtype of x
+        return a
     return g
 
 
@@ -288,10 +321,24 @@ def np_einsum(ip, args, kwargs, node):
     if any(P.is_pw(o) for o in ops):
         raise Unsupported('piecewise einsum operand', node)
     if canon == 'abc,acd->abd' and len(ops) == 2:
-        return ip.fresh_array(N.fn('dot', ops[0], ops[1]))
-    if canon == 'abc,adb->adc' and len(ops) == 2:   # 'lij,lki->lkj' = B.A
-        return ip.fresh_array(N.fn('dot', ops[1], ops[0]))
-    return ip.fresh_array(N.fn('einsum:' + canon, *ops))
+        t = N.fn('dot', ops[0], ops[1])
+    elif canon == 'abc,adb->adc' and len(ops) == 2:   # 'lij,lki->lkj' = B.A
+        t = N.fn('dot', ops[1], ops[0])
+    else:
+        t = N.fn('einsum:' + canon, *ops)
+    extra = sorted(k for k in kwargs if k != 'out')
+    if extra:
+        raise Unsupported('einsum keywords %s' % extra, node)
+    out = kwargs.get('out')
+    if out is not None and not (isinstance(out, Const) and out.v is None):
+        # the product is written into an existing array, which is also what the call returns
+        if not isinstance(out, Arr):
+            raise Unsupported('einsum out= is not a plain array', node)
+        out.t = t
+        if not out.fresh:
+            ip.event('write', out.origin, node, via='einsum-out')
+        return out
+    return ip.fresh_array(t)
 
 
 def np_inv(ip, args, kwargs, node):
@@ -527,10 +574,12 @@ def b_isinstance(ip, args, kwargs, node):
 
 
 def types_iter(ip, types):
+    kind = 'types' if not getattr(types, 'partial', None) else 'types-slice'
+
     def make(ip2):
         l = ip2.new_label()
-        return l, {'labels': [l.name], 'kind': 'types'}
-    return LabelIter(make, 'for t in types')
+        return l, {'labels': [l.name], 'kind': kind, 'partial': getattr(types, 'partial', None)}
+    return LabelIter(make, 'for t in types' if kind == 'types' else 'for t in %s' % types.partial)
 
 
 def b_enumerate(ip, args, kwargs, node):
@@ -646,6 +695,8 @@ CALLS = {
     'math.cos': _scalar_only(N.cos, 'math.cos'), 'math.sqrt': _scalar_only(N.sqrt, 'math.sqrt'),
     'math.log': _scalar_only(N.log, 'math.log'),
     'numpy.where': np_where,
+    'numpy.empty': np_empty, 'numpy.empty_like': np_empty, 'numpy.full': np_full(False), 'numpy.full_like': np_full(True),
+    'numpy.broadcast': np_broadcast,
     'numpy.minimum': np_minmax('minimum'), 'numpy.maximum': np_minmax('maximum'),
     'numpy.fmin': np_minmax('minimum'), 'numpy.fmax': np_minmax('maximum'), 'numpy.clip': np_clip,
     'numpy.searchsorted': np_position('searchsorted'), 'numpy.argmax': np_position('argmax'),
@@ -800,7 +851,23 @@ def seq_attr(ip, o, name, node):
 
 
 def types_getitem(ip, types, idx, node):
+    if idx[0] == 'slice':
+        _, lo, hi, st = idx
+        if lo is None and hi is None and st is None:
+            return types
+        # any other slice is a sub-list: code iterating it does not visit every type
+        return Types(types.name, partial='a slice of the type list (line %d)' % getattr(node, 'lineno', 0))
     raise Unsupported('indexing the type list', node)
+
+
+def types_attr(ip, types, name, node):
+    if name == 'index':
+        def index(ip2, s, a, k, n):
+            if len(a) == 1 and isinstance(a[0], Label):
+                return Index(a[0].name)
+            raise Unsupported('types.index of %r' % (a,), n)
+        return Native('list.index', index, types)
+    raise Unsupported('attribute %s of the type list' % name, node)
 
 
 def dictcomp(ip, node, env):
